@@ -87,7 +87,9 @@ WfReg(o, k) == /\ Len(o[k].ch) = o[k].next - o[k].start
                /\ \A i \in DOMAIN o[k].ch : "owner" \in DOMAIN o[k].ch[i] /\ o[k].ch[i].id = o[k].start + i - 1
 WfEnt(o) == /\ Len(o.ent.po) = o.ent.next - o.ent.start
             /\ \A i \in DOMAIN o.ent.po : "st" \in DOMAIN o.ent.po[i] /\ o.ent.po[i].id = o.ent.start + i - 1
-Wf(o) == WfReg(o, "wrk") /\ WfReg(o, "bcn") /\ WfEnt(o)
+\* (the specification divides by a stream's flow rate: a stream observed with a rate below 1 cannot be stepped from either)
+WfStr(o) == \A k \in DOMAIN o.str.s : o.str.s[k].rate >= 1
+Wf(o) == WfReg(o, "wrk") /\ WfReg(o, "bcn") /\ WfEnt(o) /\ WfStr(o)
 
 (* L1: property monitors on one observed state *)
 StateMonitors(o) ==
@@ -290,6 +292,9 @@ JudgeOrHalt(i) ==
           (IF ~WfReg(o, "wrk") THEN {<<i, "L1", "C09", "WrkChainIdsNotSequential">>, <<i, "L1", "C08", "WrkChainIdsNotSequential">>} ELSE {})
        \cup (IF ~WfReg(o, "bcn") THEN {<<i, "L1", "C09", "BeaconIdsNotSequential">>, <<i, "L1", "C08", "BeaconIdsNotSequential">>} ELSE {})
        \cup (IF ~WfEnt(o) THEN {<<i, "L1", "C03", "PurchaseOrderIdsNotSequential">>} ELSE {})
+       \cup (IF ~WfStr(o) THEN {<<i, "L1", "C11", "StreamReportedWithFlowRateBelowOne">>, <<i, "L1", "C20", "StreamReportedWithFlowRateBelowOne">>} ELSE {})
+       \* the list queries are judged against the point queries of the same observed state whatever its shape (C20)
+       \cup (IF Trace[i].a = "ListQueries" THEN { <<i, "L1", "C20", d>> : d \in ListFindings(o, Trace[i].res.lists) } ELSE {})
        \* what does not depend on the shape of the state is still judged: agreement of the replicas (C01)
        \cup { <<i, "L1", m[1], m[2]>> : m \in ReplicaMonitors(Trace[i]) }
   ELSE IF Trace[i].post.halted
